@@ -5,7 +5,8 @@
 P="$1"; shift
 HERE="$(cd "$(dirname "$0")/.." && pwd)"
 WT=$(mktemp -d /tmp/mutant-wt-XXXXXX); rmdir "$WT"
-git -C /repo worktree add -q --detach "$WT" HEAD || exit 2
+for try in 1 2 3 4 5; do git -C /repo worktree add -q --detach "$WT" HEAD 2>/dev/null && break; sleep 1; done
+[ -d "$WT" ] || { echo "cannot create a scratch worktree"; exit 2; }
 ( cd "$WT" && { git apply "$P" 2>/dev/null || git apply -3 "$P" 2>/dev/null || patch -s -p1 --no-backup-if-mismatch < "$P"; } ) || { echo "PATCH DOES NOT APPLY"; git -C /repo worktree remove --force "$WT"; exit 2; }
 OUT=$(mktemp -d /tmp/mutant-out-XXXXXX)
 cd "$HERE"
